@@ -106,6 +106,10 @@ pub const LAYOUTS: usize = 7;
 
 /// stand-alone licence j named by n: 0..=2 -> "L<n>" with text, 3..=5 -> "L<n-3>" without text (name and a comment only)
 fn standalone_para(j: usize, n: usize) -> (String, License) {
+    if n == 6 {
+        // a name of several words whose first word is another licence's whole name
+        return (format!("\nLicense: L0 with exception\n text of stand-alone {} (L0 with exception)\n", j), License::Named("L0 with exception".into(), format!("text of stand-alone {} (L0 with exception)", j)));
+    }
     if n < 3 {
         (format!("\nLicense: L{}\n text of stand-alone {} (L{})\n", n, j, n), License::Named(format!("L{}", n), format!("text of stand-alone {} (L{})", j, n)))
     } else {
@@ -198,7 +202,7 @@ fn check_lookup(files: &[(usize, usize, bool, usize)], licenses: &[usize], path:
             if got_files != want_files || got_lics != want_lics {
                 out.push(viol("paragraph-roles-lossless", ctx(&format!("iter_files yields {:?} (expected {:?}), iter_licenses yields {:?} (expected {:?})", got_files, want_files, got_lics, want_lics))));
             }
-            for name in ["L0", "L1", "L2", "L", "L00", "l0"] {
+            for name in ["L0", "L1", "L2", "L", "L00", "l0", "L0 with exception", "L0 with"] {
                 if c.find_license_by_name(name) != standalone(name) {
                     out.push(viol("licence-by-name-lossless", ctx(&format!("find_license_by_name({}) -> {:?}, expected {:?}", name, c.find_license_by_name(name), standalone(name)))));
                 }
@@ -216,7 +220,7 @@ fn check_lookup(files: &[(usize, usize, bool, usize)], licenses: &[usize], path:
             if got_lic != want_lic {
                 out.push(viol("licence-lossy", ctx(&format!("lossy find_license_for_file -> {:?}, expected {:?}", got_lic, want_lic))));
             }
-            for name in ["L0", "L1", "L2", "L", "L00", "l0"] {
+            for name in ["L0", "L1", "L2", "L", "L00", "l0", "L0 with exception", "L0 with"] {
                 if c.find_license_by_name(name).cloned() != standalone(name) {
                     out.push(viol("licence-by-name-lossy", ctx(&format!("lossy find_license_by_name({}) -> {:?}, expected {:?}", name, c.find_license_by_name(name), standalone(name)))));
                 }
@@ -279,7 +283,7 @@ impl Prop for C17 {
         "exploration"
     }
     fn rule(&self, _t: Tier) -> String {
-        "(a) globs: every pattern of 1..3 tokens (thorough 4) over {a b . / + ( [ * ? \\* \\? \\\\} x every path of 0..2 characters (thorough 3; 2 for 4-token patterns) over {a b . / + ( [ * ? \\}, and every pattern of 1..2 tokens (thorough 3) over {a ) ] { } ^ $ | é - * ?} x every path of 0..2 (thorough 3) characters over the same characters without * ?, through FilesParagraph::matches of both readers against a backtracking matcher written from the statement; (b) lookup: every copyright file (plain; header carrying a licence with text / a licence name and comment; stand-alone licence paragraphs before or between the Files paragraphs; no final newline; a comment line in front of every paragraph - these six layouts with up to 1 (thorough 2) Files paragraphs) of 0..2 Files paragraphs (thorough: a third paragraph from 8 representative configurations) x (1-2 patterns from 5, second one on the same or its own line) x 4 licence kinds, with 0..2 stand-alone licence paragraphs (names L0/L1 in every order, with text or name only) x 6 paths, through find_files / find_license_for_file / find_license_by_name / iter_* of both readers against 'last match wins; own licence text else first stand-alone of that name'; (c) texts not starting with Format; all cases distinct; non-trivial = all".into()
+        "(a) globs: every pattern of 1..3 tokens (thorough 4) over {a b . / + ( [ * ? \\* \\? \\\\} x every path of 0..2 characters (thorough 3; 2 for 4-token patterns) over {a b . / + ( [ * ? \\}, and every pattern of 1..2 tokens (thorough 3) over {a ) ] { } ^ $ | é - * ?} x every path of 0..2 (thorough 3) characters over the same characters without * ?, through FilesParagraph::matches of both readers against a backtracking matcher written from the statement; (b) lookup: every copyright file (plain; header carrying a licence with text / a licence name and comment; stand-alone licence paragraphs before or between the Files paragraphs; no final newline; a comment line in front of every paragraph - these six layouts with up to 1 (thorough 2) Files paragraphs) of 0..2 Files paragraphs (thorough: a third paragraph from 8 representative configurations) x (1-2 patterns from 5, second one on the same or its own line) x 4 licence kinds, with 0..2 stand-alone licence paragraphs (names L0/L1 in every order, with text or name only, and the several-word name 'L0 with exception' alone, before and after L0) x 6 paths, through find_files / find_license_for_file / find_license_by_name / iter_* of both readers against 'last match wins; own licence text else first stand-alone of that name'; (c) texts not starting with Format; all cases distinct; non-trivial = all".into()
     }
     fn bounds(&self, t: Tier) -> Value {
         json!({"pattern_tokens": PAT_TOKENS, "path_chars": PATH_CHARS, "pattern_tokens_2": PAT_TOKENS2, "path_chars_2": PATH_CHARS2, "max_pattern_tokens_2": t.pick(2, 3), "layouts": LAYOUTS, "max_pattern_tokens": t.pick(3, 4), "max_path_len": t.pick(2, 3), "lookup_patterns": LOOKUP_PATTERNS, "lookup_paths": LOOKUP_PATHS, "max_files_paragraphs": t.pick(2, 3)})
@@ -336,7 +340,7 @@ impl Prop for C17 {
             });
             return;
         }
-        let lic_sets: [&[usize]; 6] = [&[], &[0], &[1, 0], &[0, 0], &[3, 0], &[0, 3]];
+        let lic_sets: [&[usize]; 9] = [&[], &[0], &[1, 0], &[0, 0], &[3, 0], &[0, 3], &[6], &[6, 0], &[0, 6]];
         let mut emit = |files: &Vec<(usize, usize, bool, usize)>| {
             // the non-plain layouts: up to one Files paragraph (thorough: two)
             let layouts = if files.len() <= t.pick(1, 2) { LAYOUTS } else { 1 };
